@@ -1,6 +1,7 @@
 """C02 — Saving or deleting tags never alters audio or foreign data."""
 import containers
 import id3file_tie
+import apefile_tie
 
 RULE = ("random edit histories (set tiny/huge/empty/unicode values, save with default/0/n/keep padding, save through a fresh object, "
         "delete by method and by module function, reload) over every sample of every taggable format; after each save/delete an independent "
@@ -13,6 +14,7 @@ RULE = ("random edit histories (set tiny/huge/empty/unicode values, save with de
 def run(ctx):
     containers.run_histories(ctx, {"foreign"}, RULE)
     id3file_tie.run(ctx)
+    apefile_tie.run(ctx)
 
 
 def search(ctx):
